@@ -64,6 +64,8 @@ def purchase_stats(sess):
     for st in sess.steps:
         if st["op"].get("reentry"):
             c["operations_with_reentry_program"] += 1
+            if any(x.get("reentry") for x in st["op"]["reentry"]):
+                c["operations_with_nested_programs"] += 1              # tree programs (model/ReentryDeep.v), compared by check_tstep
             if st["market_calls"] > 1:
                 c["reentrant_transactions"] += 1                       # the hostile contract was handed a transfer and called back
                 c["nested_marketplace_calls"] += st["market_calls"] - 1
